@@ -1205,6 +1205,89 @@ class AliasHistory(History):
 
 guard_class(AliasHistory)
 
+# ---------------------------------------------------------------------------------------
+# complex values assigned to real fields (after missed seed C15-7: the assignment re-allocated the padded array
+# and cut the links).  What such an assignment stores is not documented (numpy keeps the real part), so only
+# the LINKS are judged: afterwards every handle still shares memory as before and a write through one handle
+# is seen through the others.
+# ---------------------------------------------------------------------------------------
+@st.composite
+def complex_assign_cases(draw):
+    return {"n": draw(st.integers(2, 5)), "nfields": draw(st.integers(1, 3)),
+            "kind": draw(st.sampled_from(["scalar", "scalar", "vector"])),
+            "route": draw(st.sampled_from(["member.data", "collection.data", "collection[i]", "component.data",
+                                           "field.data"])),
+            "value": draw(st.sampled_from(["array", "number", "field"])),
+            "target": draw(st.integers(0, 2)), "seed": draw(st.integers(0, 2**31))}
+
+
+def check_complex_assign(case):
+    grid = pde.UnitGrid([case["n"]])
+    rng = np.random.default_rng(case["seed"])
+    cls = pde.ScalarField if case["kind"] == "scalar" else pde.VectorField
+    fields = [cls(grid, rng.normal(size=((1,) if cls is pde.VectorField else ()) + (case["n"],)))
+              for _ in range(case["nfields"])]
+    coll = FieldCollection(fields)  # copy_fields=False: the members are linked to the collection
+    k = case["target"] % len(fields)
+    member = coll[k]
+    comp = member[0] if cls is pde.VectorField else None  # component view of a vector field
+    route = case["route"]
+    if route == "component.data" and comp is None:
+        route = "member.data"
+
+    def value(shape):
+        z = rng.normal(size=shape) + 1j * rng.normal(size=shape)
+        if case["value"] == "number":
+            return 0.5 - 2.0j
+        if case["value"] == "field" and route in ("member.data", "field.data", "collection[i]"):
+            return cls(grid, z, dtype=complex)
+        return z
+
+    try:
+        _assign = True
+        with warnings.catch_warnings():
+            warnings.simplefilter("ignore")
+            if route == "member.data":
+                member.data = value(member.data.shape)
+            elif route == "collection.data":
+                coll.data = value(coll.data.shape)
+            elif route == "collection[i]":
+                coll[k] = value(member.data.shape)
+            elif route == "component.data":
+                comp.data = value(comp.data.shape)
+            else:  # a field of its own: only `.data` and the padded array are linked
+                member = cls(grid, rng.normal(size=member.data.shape))
+                coll, comp = None, None
+                member.data = value(member.data.shape)
+    except TypeError:
+        # numpy refuses a python complex number for a real array: a loud rejection, links are judged all the same
+        _assign = False
+    what = f"after assigning complex values ({case['value']}) through {route}"
+    if not np.shares_memory(member.data, member._data_full):
+        raise Violation(f"{what}: `.data` of the field is no longer a view of its padded array", key="complex-assign:data-detached")
+    if coll is not None:
+        if coll[k] is not member or not np.shares_memory(member._data_full, coll._data_full):
+            raise Violation(f"{what}: the member no longer shares memory with its collection",
+                            key="complex-assign:member-detached")
+        member.data[...] = 7.0
+        sl = coll.data[coll._slices[k]]
+        if not np.all(np.real(sl) == 7.0):
+            raise Violation(f"{what}: a write through the member is not seen through the collection: {sl.tolist()!r}",
+                            key="complex-assign:member-detached")
+        coll.data[...] = -3.0
+        if not np.all(np.real(member.data) == -3.0):
+            raise Violation(f"{what}: a write through the collection is not seen through the member",
+                            key="complex-assign:member-detached")
+    if comp is not None:
+        member.data[...] = 2.0
+        if not np.all(np.real(comp.data) == 2.0):
+            raise Violation(f"{what}: a write through the vector field is not seen through its component view",
+                            key="complex-assign:component-detached")
+    return {"nt": _assign, "labels": [f"route:{route}", f"value:{case['value']}", f"kind:{case['kind']}",
+                                      "assigned" if _assign else "refused (TypeError)"],
+            "key": [route, case["value"], case["kind"], case["n"], case["nfields"], k]}
+
+
 SUBCHECKS = [
     SubCheck(
         name="AliasMachine", history=AliasHistory, mode="nojit",
@@ -1213,4 +1296,8 @@ SUBCHECKS = [
         rule="non-trivial = history with a write through a handle while another live handle aliases it "
              "(all handles are read after every rule), or a write to the source/result of a copy-like "
              "operation"),
+    SubCheck(name="complex_assignment_keeps_links", strategy=complex_assign_cases, check=check_complex_assign,
+             mode="pure", budget={"quick": 300, "thorough": 3000}, shards={"quick": 1, "thorough": 1},
+             rule="complex values assigned to real fields through every assignment route; only the memory links are "
+                  "judged; every case is non-trivial"),
 ]
